@@ -41,6 +41,9 @@ type c05Case struct {
 	// Hold: standing requests to dial X at both addresses (DialTptAddr directives, as a statically configured peer
 	// gives) are kept referenced for the whole history
 	Hold bool `json:"hold,omitempty"`
+	// Static (0 = none, 1 / 2 = address a / b): D's transport is configured with a static dialing address for X, so the
+	// held request for a link to X keeps a dial of X at that address going for the whole history
+	Static int `json:"static,omitempty"`
 }
 
 func genC05(t *rapid.T) c05Case {
@@ -48,6 +51,7 @@ func genC05(t *rapid.T) c05Case {
 	n := rapid.IntRange(2, 4).Draw(t, "rounds")
 	var c c05Case
 	c.Hold = rapid.IntRange(0, 2).Draw(t, "hold") == 0
+	c.Static = rapid.SampledFrom([]int{0, 0, 0, 1, 2}).Draw(t, "static")
 	if rapid.IntRange(0, 4).Draw(t, "twolinks") == 0 {
 		// D holds links with X at both addresses; then they go away
 		c.Ops = append(c.Ops, c05Op{Op: "bind", Addr: 0, Who: 1}, c05Op{Op: "dial", Addr: 0}, c05Op{Op: "bind", Addr: 1, Who: 1}, c05Op{Op: "dial", Addr: 1}, c05Op{Op: "kill"})
@@ -58,6 +62,17 @@ func genC05(t *rapid.T) c05Case {
 		a := rapid.IntRange(0, 1).Draw(t, "ja")
 		c.Ops = append(c.Ops, c05Op{Op: "bind", Addr: a, Who: 0}, c05Op{Op: "dialany", Addr: a},
 			c05Op{Op: "bind", Addr: a, Who: rapid.SampledFrom([]int{2, 2, 1}).Draw(t, "jw")}, c05Op{Op: "dial", Addr: a})
+	}
+	if rapid.IntRange(0, 2).Draw(t, "takeover") == 0 {
+		// D keeps a standing dial of X at an address and holds a link there; X drops off the network without a word, an
+		// impostor takes the address over and connects into D from it, then leaves again
+		a := rapid.IntRange(0, 1).Draw(t, "ta")
+		c.Static = a + 1
+		c.Ops = append(c.Ops, c05Op{Op: "bind", Addr: a, Who: 1}, c05Op{Op: "dial", Addr: a}, c05Op{Op: "vanish", Addr: a},
+			c05Op{Op: "bind", Addr: a, Who: 2}, c05Op{Op: "inbound", Addr: a}, c05Op{Op: "bind", Addr: a, Who: 0})
+		if rapid.Bool().Draw(t, "takeoveronly") {
+			return c
+		}
 	}
 	for i := 0; i < n; i++ {
 		addr := rapid.IntRange(0, 1).Draw(t, "addr")
@@ -109,6 +124,7 @@ type server struct {
 	who    int
 	cancel context.CancelFunc
 	h      *recHandler
+	tpt    *pconn.Transport
 }
 
 func startServer(nw *memNet, addr memAddr, who int) (*server, error) {
@@ -121,7 +137,7 @@ func startServer(nw *memNet, addr memAddr, who int) (*server, error) {
 		return nil, err
 	}
 	go func() { _ = tpt.Execute(ctx) }()
-	return &server{who: who, cancel: cancel, h: h}, nil
+	return &server{who: who, cancel: cancel, h: h, tpt: tpt}, nil
 }
 
 func fastDialBackoff() *backoff.Backoff {
@@ -153,7 +169,11 @@ func checkDial(c c05Case, refusalOnly bool) (o vstat.Outcome) {
 	var dtpt *pconn.Transport
 	ctrl := transport_controller.NewController(quietLog, tb.Bus, controller.NewInfo("verif/memnet", semver.MustParse("0.0.1"), "memnet"), gen.PeerID(0), false,
 		func(ctx context.Context, le *logrus.Entry, pkey crypto.PrivKey, handler transport.TransportHandler) (transport.Transport, error) {
-			t, err := pconn.NewTransport(ctx, le, pkey, handler, nil, 0, nw.listen("dialer"), parseMemAddr, nil)
+			var static map[string]*dialer.DialerOpts
+			if c.Static == 1 || c.Static == 2 {
+				static = map[string]*dialer.DialerOpts{gen.PeerID(1).String(): {Address: []string{"addr-a", "addr-b"}[c.Static-1], Backoff: fastDialBackoff()}}
+			}
+			t, err := pconn.NewTransport(ctx, le, pkey, handler, nil, 0, nw.listen("dialer"), parseMemAddr, static)
 			dtpt = t
 			if err != nil {
 				return nil, err
@@ -327,6 +347,32 @@ func checkDial(c c05Case, refusalOnly bool) (o vstat.Outcome) {
 					return
 				}
 			}
+		case "vanish":
+			// whoever serves the address drops off the network: nothing it still sends arrives (no goodbye)
+			if s := servers[op.Addr]; s != nil {
+				nw.unbind(addrs[op.Addr])
+				s.cancel()
+				delete(servers, op.Addr)
+				time.Sleep(5 * time.Millisecond)
+			}
+			hist = append(hist, fmt.Sprintf("vanish(%s)", addrs[op.Addr]))
+		case "inbound":
+			// whoever serves the address connects into D from it
+			s := servers[op.Addr]
+			if s == nil {
+				continue
+			}
+			if s.who == 2 {
+				everDialedY = true // D accepts callers: a link with Y is legitimate from here on
+			}
+			ictx, icancel := context.WithTimeout(ctx, 3*time.Second)
+			_, _, ierr := s.tpt.DialPeer(ictx, gen.PeerID(0), "dialer")
+			icancel()
+			if ierr == nil {
+				o.Classes = append(o.Classes, "inbound-link-from-served-address")
+			}
+			time.Sleep(20 * time.Millisecond)
+			hist = append(hist, fmt.Sprintf("inbound(%s by %d)", addrs[op.Addr], s.who))
 		case "kill":
 			for _, p := range []peer.ID{X, gen.PeerID(2)} {
 				for _, l := range ctrl.GetPeerLinks(p) {
@@ -392,6 +438,19 @@ func checkDial(c c05Case, refusalOnly bool) (o vstat.Outcome) {
 			return
 		}
 		servers[a] = s
+	}
+	if c.Static == 1 || c.Static == 2 {
+		o.Classes = append(o.Classes, "static-dial-address-for-X")
+		// the dial kept going by the held request alone brings the link back: it kept retrying while X was away
+		for a := c.Static - 1; a < c.Static; a++ {
+			if !waitForT(8*time.Second, func() bool {
+				l, ok := dtpt.LookupLinkWithAddr(string(addrs[a]))
+				return ok && l.GetRemotePeer() == X
+			}) {
+				o.V = vstat.Viol("standing-dial-gave-up", "after %s, all links gone and X now serving %s: the dial of X at its statically configured address (kept going by a held request for a link to X) did not produce a link within 8 s", strings.Join(hist, " "), addrs[a])
+				return
+			}
+		}
 	}
 	for a := range addrs {
 		dctx, dcancel := context.WithTimeout(ctx, 8*time.Second)
